@@ -153,6 +153,7 @@ void vf_havoc(void * p, size_t n)
 }
 void vf_assume(bool c) { if(! c) die(6, "VF-MISMATCH assumption false under the replayed model"); }
 void vf_assert(bool c, int id) { if(! c) die(3, "VF-ASSERT-FAIL %ld", id); }
+void vf_require(bool c, int id) { if(! c) die(7, "VF-REQUIRE-FAIL %ld", id); }
 void vf_cover(int g) { printf("COVER %d\n", g); }
 void vf_obs(int tag, uint64_t v) { printf("OBS %d %llu\n", tag, (unsigned long long)v); }
 void vf_tag(int) {}
